@@ -424,8 +424,9 @@ def rule_D2(tree: Tree) -> RuleResult:
     r.instances += 1
     pc = [c for c in body_walk(run.node) if isinstance(c, ast.Call) and dotted(c.func) == "Packet"]
     loop = next((a for a in ancestors(pc[0]) if isinstance(a, ast.For)), None) if pc else None
-    ok = len(pc) == 1 and [src(a) for a in pc[0].args] == ["buf", "ts"] and loop is not None and src(loop.target) == "(ts, buf)" and src(loop.iter) == "pcap_reader"
-    r.ob(ok, Finding("D2", "main:run:packet-time", "each Packet is built from the (ts, buf) pair the reader yields", run.module.line(run.node)))
+    ok = len(pc) == 1 and [src(a) for a in pc[0].args] == ["buf", "float(ts)"] and loop is not None and src(loop.target) == "(ts, buf)" and src(loop.iter) == "pcap_reader"
+    r.ob(ok, Finding("D2", "main:run:packet-time", "each Packet is built from the (ts, buf) pair the reader yields, the time as float(ts) and nothing else: dpkt's legacy reader yields "
+                                                   "Decimal for nanosecond-resolution files, which the pcapng writer cannot scale (TypeError after the whole capture was processed)", run.module.line(run.node)))
     # QUIC: every packet object built by the dissector carries in_packet.timestamp; super().__init__ passes ts through
     dis = tree.func("quic.quic_dissector", "extract_quic_packet")
     r.instances += 1
